@@ -232,6 +232,9 @@ impl Trace {
         let mut h = crate::util::Hasher64::new();
         h.str(&self.property);
         for (k, v) in &self.meta {
+            if k == "config" {
+                continue; // the same case under another build configuration is not a new case
+            }
             h.str(k).str(v);
         }
         for s in &self.steps {
